@@ -1438,4 +1438,381 @@ theorem foldInputs_clash : ∀ (rest : List MergeInput) (acc : List TypeDef) (ac
         obtain ⟨h1, h2, g', hg', h3⟩ := hasField_of_covers hc hdk hg (by rw [hgn]; exact hb)
         exact ⟨r, hr, h1.trans hdn, h2, g', hg', h3.trans hgn⟩
 
+/-! ## when the loops must fail (two-service conflicts) -/
+
+theorem fieldNamed_append_left {fs ext : List FieldDef} {n : String} {r : FieldDef} (h : fieldNamed fs n = some r) :
+    fieldNamed (fs ++ ext) n = some r := by
+  unfold fieldNamed at h ⊢
+  rw [List.find?_append, h]; rfl
+
+theorem fieldNamed_of_nodup {fs : List FieldDef} (hn : (fs.map (·.name)).Nodup) {r : FieldDef} (hr : r ∈ fs) :
+    fieldNamed fs r.name = some r := by
+  induction fs with
+  | nil => cases hr
+  | cons t ts ih =>
+    simp only [List.map_cons, List.nodup_cons] at hn
+    unfold fieldNamed
+    rw [List.find?_cons]
+    rcases List.mem_cons.mp hr with h | h
+    · subst h; simp
+    · have hne : t.name ≠ r.name := fun he => hn.1 (he ▸ List.mem_map_of_mem h)
+      have hb : (t.name == r.name) = false := by simpa using hne
+      rw [hb]
+      exact ih hn.2 h
+
+theorem fieldNamed_isSome_of_mem {fs : List FieldDef} {r : FieldDef} (hr : r ∈ fs) : ∃ r', fieldNamed fs r.name = some r' := by
+  cases h : fieldNamed fs r.name with
+  | some r' => exact ⟨r', rfl⟩
+  | none => exact absurd rfl (fieldNamed_none h r hr)
+
+/-- an overlapping non-id field puts a `true` into the flags -/
+theorem fieldLoop_any {n : String} : ∀ (l : List FieldDef) (st st' : FieldLoop),
+    l.foldlM (fieldStep E n) st = .ok st' → ∀ f ∈ l, (∃ r ∈ st.result, r.name = f.name) → isIDField f = false →
+    st'.flags.any id = true
+  | [], _, _, _, _, hf, _, _ => by cases hf
+  | x :: l, st, st', h, f, hf, hex, hid => by
+    obtain ⟨s1, h1, h2⟩ := foldlM_cons_ok h
+    rcases List.mem_cons.mp hf with rfl | hf
+    · obtain ⟨fl, hfl⟩ := fieldLoop_flags l s1 st' h2
+      rcases fieldStep_cases h1 with ⟨_, _, _, _, _, hidt⟩ | ⟨rfl, _⟩ | ⟨_, hnone⟩
+      · rw [hid] at hidt; cases hidt
+      · rw [hfl]; simp
+      · obtain ⟨r, hr, hrn⟩ := hex
+        exact absurd hrn (fieldNamed_none hnone r hr)
+    · apply fieldLoop_any l s1 st' h2 f hf _ hid
+      obtain ⟨r, hr, hrn⟩ := hex
+      refine ⟨r, ?_, hrn⟩
+      rcases fieldStep_cases h1 with ⟨rfl, _⟩ | ⟨rfl, _⟩ | ⟨rfl, _⟩
+      · exact hr
+      · exact List.mem_append_left _ hr
+      · exact List.mem_append_left _ hr
+
+/-- a field the base does not have puts a `false` into the flags (names of the list distinct) -/
+theorem fieldLoop_notall {n : String} : ∀ (l : List FieldDef) (st st' : FieldLoop),
+    l.foldlM (fieldStep E n) st = .ok st' → (l.map (·.name)).Nodup → ∀ g ∈ l, (∀ r ∈ st.result, r.name ≠ g.name) →
+    st'.flags.all id = false
+  | [], _, _, _, _, _, hg, _ => by cases hg
+  | x :: l, st, st', h, hn, g, hg, hno => by
+    obtain ⟨s1, h1, h2⟩ := foldlM_cons_ok h
+    simp only [List.map_cons, List.nodup_cons] at hn
+    rcases List.mem_cons.mp hg with rfl | hg
+    · obtain ⟨fl, hfl⟩ := fieldLoop_flags l s1 st' h2
+      rcases fieldStep_cases h1 with ⟨_, r, hr, hrn, _⟩ | ⟨_, r, hr, hrn, _⟩ | ⟨rfl, _⟩
+      · exact absurd hrn (hno r hr)
+      · exact absurd hrn (hno r hr)
+      · rw [hfl]; simp
+    · apply fieldLoop_notall l s1 st' h2 hn.2 g hg
+      have hxg : x.name ≠ g.name := fun he => hn.1 (he ▸ List.mem_map_of_mem hg)
+      rcases fieldStep_cases h1 with ⟨rfl, _⟩ | ⟨rfl, _⟩ | ⟨rfl, _⟩
+      · exact hno
+      · intro r hr
+        rcases List.mem_append.mp hr with hr | hr
+        · exact hno r hr
+        · simp only [List.mem_singleton] at hr; exact hr ▸ hxg
+      · intro r hr
+        rcases List.mem_append.mp hr with hr | hr
+        · exact hno r hr
+        · simp only [List.mem_singleton] at hr; exact hr ▸ hxg
+
+/-- an overlapping field with another signature stops the loop -/
+theorem fieldLoop_sig {n : String} : ∀ (l : List FieldDef) (st : FieldLoop) (f r : FieldDef),
+    f ∈ l → fieldNamed st.result f.name = some r → isSameSignature r f = false →
+    ∃ e, l.foldlM (fieldStep E n) st = .error e
+  | [], _, _, _, hf, _, _ => by cases hf
+  | x :: l, st, f, r, hf, hr, hs => by
+    rw [List.foldlM_cons]
+    cases h1 : fieldStep E n st x with
+    | error e => exact ⟨e, rfl⟩
+    | ok s1 =>
+      rcases List.mem_cons.mp hf with rfl | hf
+      · exfalso
+        rcases fieldStep_cases h1 with ⟨_, r', _, _, hs', _⟩ | ⟨_, r', _, _, hs', _⟩ | ⟨_, hnone⟩
+        · unfold fieldStep at h1
+          simp only [show E.idSkipOnlyIfPresent = true from rfl, show E.fieldSignatureChecked = true from rfl, hr, hs,
+            Bool.not_true, Bool.not_false, Bool.false_and, Bool.true_and, Bool.false_eq_true, ↓reduceIte] at h1
+          cases h1
+        · unfold fieldStep at h1
+          simp only [show E.idSkipOnlyIfPresent = true from rfl, show E.fieldSignatureChecked = true from rfl, hr, hs,
+            Bool.not_true, Bool.not_false, Bool.false_and, Bool.true_and, Bool.false_eq_true, ↓reduceIte] at h1
+          cases h1
+        · rw [hr] at hnone; cases hnone
+      · apply fieldLoop_sig l s1 f r hf _ hs
+        rcases fieldStep_cases h1 with ⟨rfl, _⟩ | ⟨rfl, _⟩ | ⟨rfl, _⟩
+        · exact hr
+        · exact fieldNamed_append_left hr
+        · exact fieldNamed_append_left hr
+
+theorem isIDField_of_sameSig {r f : FieldDef} (hs : isSameSignature r f = true) (hn : r.name = f.name) :
+    isIDField f = isIDField r := by
+  unfold isSameSignature at hs
+  simp only [Bool.and_eq_true, beq_iff_eq] at hs
+  obtain ⟨⟨⟨ht, _⟩, h1⟩, h2⟩ := hs
+  unfold isIDField
+  rw [hn, ht]
+  congr 2
+  cases hr : r.args with
+  | nil =>
+    cases hf : f.args with
+    | nil => rfl
+    | cons a as =>
+      rw [hr, hf] at h2
+      simp [isSubArguments] at h2
+  | cons a as =>
+    cases hf : f.args with
+    | nil =>
+      rw [hr, hf] at h1
+      simp [isSubArguments] at h1
+    | cons b bs => rfl
+
+theorem mergeable_nodup {b : TypeDef} (h : (b.fields.map (·.name)).Nodup) : ((mergeableFields b).map (·.name)).Nodup := by
+  unfold mergeableFields
+  exact List.Nodup.sublist (List.Sublist.map _ List.filter_sublist) h
+
+theorem mem_mergeable {b : TypeDef} {g : FieldDef} (hg : g ∈ b.fields) (hb : isBuiltinName g.name = false) :
+    g ∈ mergeableFields b := by simp [mergeableFields, hg, hb]
+
+/-- `mergeCustomObjectFields(a, b)` unfolded (the name is not `Query`) -/
+theorem customFields_unfold {a b : TypeDef} (hq : (a.name == queryName) = false) :
+    mergeCustomObjectFields E a b =
+      (match (mergeableFields b).foldlM (fieldStep E a.name) { result := a.fields, flags := [] } with
+       | .error e => .error e
+       | .ok st =>
+         if implementsNode a && st.flags.any id then .error (.overlappingFields a.name)
+         else if st.flags.any id && !st.flags.all id then .error (.notCompleteCopy a.name)
+         else if st.flags.all id then .ok a.fields
+         else .ok st.result) := by
+  unfold mergeCustomObjectFields
+  have hr0 : a.fields.filter (fun f => !(a.name == queryName && isNodeField E f)) = a.fields := by simp [hq]
+  simp only [hr0, bind, Except.bind]
+  cases (mergeableFields b).foldlM (fieldStep E a.name) { result := a.fields, flags := [] } <;> rfl
+
+theorem customFields_err_sig {a b : TypeDef} (hq : (a.name == queryName) = false) (hna : (a.fields.map (·.name)).Nodup)
+    {f r : FieldDef} (hf : f ∈ b.fields) (hb : isBuiltinName f.name = false) (hr : r ∈ a.fields) (hn : r.name = f.name)
+    (hs : isSameSignature r f = false) : ∃ e, mergeCustomObjectFields E a b = .error e := by
+  rw [customFields_unfold hq]
+  obtain ⟨e, he⟩ := fieldLoop_sig (n := a.name) (mergeableFields b) { result := a.fields, flags := [] } f r
+    (mem_mergeable hf hb) (hn ▸ fieldNamed_of_nodup hna hr) hs
+  rw [he]; exact ⟨e, rfl⟩
+
+theorem customFields_err_node {a b : TypeDef} (hq : (a.name == queryName) = false) (hN : implementsNode a = true)
+    {f : FieldDef} (hf : f ∈ b.fields) (hb : isBuiltinName f.name = false) (hid : isIDField f = false)
+    (hex : ∃ r ∈ a.fields, r.name = f.name) : ∃ e, mergeCustomObjectFields E a b = .error e := by
+  rw [customFields_unfold hq]
+  cases hl : (mergeableFields b).foldlM (fieldStep E a.name) { result := a.fields, flags := [] } with
+  | error e => exact ⟨e, rfl⟩
+  | ok st =>
+    have := fieldLoop_any _ _ _ hl f (mem_mergeable hf hb) hex hid
+    simp only [hN, this, Bool.and_self, ↓reduceIte]
+    exact ⟨_, rfl⟩
+
+theorem customFields_err_partial {a b : TypeDef} (hq : (a.name == queryName) = false)
+    (hnb : (b.fields.map (·.name)).Nodup)
+    {f : FieldDef} (hf : f ∈ b.fields) (hb : isBuiltinName f.name = false) (hid : isIDField f = false)
+    (hex : ∃ r ∈ a.fields, r.name = f.name)
+    {g : FieldDef} (hg : g ∈ b.fields) (hgb : isBuiltinName g.name = false) (hno : ∀ r ∈ a.fields, r.name ≠ g.name) :
+    ∃ e, mergeCustomObjectFields E a b = .error e := by
+  rw [customFields_unfold hq]
+  cases hl : (mergeableFields b).foldlM (fieldStep E a.name) { result := a.fields, flags := [] } with
+  | error e => exact ⟨e, rfl⟩
+  | ok st =>
+    have h1 := fieldLoop_any _ _ _ hl f (mem_mergeable hf hb) hex hid
+    have h2 := fieldLoop_notall _ _ _ hl (mergeable_nodup hnb) g (mem_mergeable hg hgb) hno
+    simp only [h1, h2, Bool.and_true, Bool.not_false, Bool.and_self, ↓reduceIte]
+    split <;> exact ⟨_, rfl⟩
+
+theorem mergeCustomObjects_err_left {a b : TypeDef} (h : ∃ e, mergeCustomObjectFields E a b = .error e) :
+    ∃ e, mergeCustomObjects E a b = .error e := by
+  obtain ⟨e, he⟩ := h
+  unfold mergeCustomObjects
+  simp only [he, bind, Except.bind]
+  exact ⟨e, rfl⟩
+
+theorem mergeCustomObjects_err_right {a b : TypeDef} (h : ∃ e, mergeCustomObjectFields E b a = .error e) :
+    ∃ e, mergeCustomObjects E a b = .error e := by
+  obtain ⟨e, he⟩ := h
+  unfold mergeCustomObjects
+  simp only [he, bind, Except.bind]
+  cases mergeCustomObjectFields E a b with
+  | error e' => exact ⟨e', rfl⟩
+  | ok fs => exact ⟨e, rfl⟩
+
+/-- a root field the base already has, and the two are not the same relay `node` field -/
+theorem rootFold_err {n : String} : ∀ (l : List FieldDef) (fs0 : List FieldDef) (g0 rf : FieldDef),
+    g0 ∈ l → isBuiltinName g0.name = false → fieldNamed fs0 g0.name = some rf →
+    (isNodeField E g0 && isNodeField E rf && isSameSignature rf g0) = false →
+    ∃ e, l.foldlM (rootStep E n) fs0 = .error e
+  | [], _, _, _, hg, _, _, _ => by cases hg
+  | x :: l, fs0, g0, rf, hg, hb, hrf, hc => by
+    rw [List.foldlM_cons]
+    cases h1 : rootStep E n fs0 x with
+    | error e => exact ⟨e, rfl⟩
+    | ok s1 =>
+      rcases List.mem_cons.mp hg with rfl | hg
+      · exfalso
+        rcases rootStep_cases h1 with ⟨_, hbt⟩ | ⟨_, _, rf', hr', _, c1, c2, c3⟩ | ⟨_, _, hnone⟩
+        · rw [hb] at hbt; cases hbt
+        · unfold rootStep at h1
+          simp only [show E.rootKeepsNodeField = true from rfl, ↓reduceIte, hb, Bool.false_eq_true, hrf, hc] at h1
+          cases h1
+        · rw [hrf] at hnone; cases hnone
+      · apply rootFold_err l s1 g0 rf hg hb _ hc
+        rcases rootStep_cases h1 with ⟨rfl, _⟩ | ⟨rfl, _⟩ | ⟨rfl, _⟩
+        · exact hrf
+        · exact hrf
+        · exact fieldNamed_append_left hrf
+
+theorem mergeRootObjects_err {a b : TypeDef} (h : ∃ e, b.fields.foldlM (rootStep E a.name) a.fields = .error e) :
+    ∃ e, mergeRootObjects E a b = .error e := by
+  obtain ⟨e, he⟩ := h
+  unfold mergeRootObjects
+  simp only [he, bind, Except.bind]
+  exact ⟨e, rfl⟩
+
+/-! `mergeDef` fails -/
+
+theorem mergeDef_err_kind {as bs : Schema} {va vb : TypeDef} (hN : vb.name ≠ nodeInterfaceName) (hk : vb.kind ≠ va.kind) :
+    ∃ e, mergeDef E as bs va vb = .error e := by
+  unfold mergeDef
+  have h1 : (vb.name == nodeInterfaceName) = false := by simpa using hN
+  have h2 : (vb.kind != va.kind) = true := by simpa using hk
+  simp only [h1, Bool.false_eq_true, ↓reduceIte, h2]
+  exact ⟨_, rfl⟩
+
+theorem mergeDef_err_union {as bs : Schema} {va vb : TypeDef} (hN : vb.name ≠ nodeInterfaceName)
+    (hka : va.kind = .union) (hkb : vb.kind = .union) (hs : sameMembers va.members vb.members = false) :
+    ∃ e, mergeDef E as bs va vb = .error e := by
+  unfold mergeDef
+  have h1 : (vb.name == nodeInterfaceName) = false := by simpa using hN
+  simp only [h1, Bool.false_eq_true, ↓reduceIte, hka, hkb, bne_self_eq_false, hs]
+  exact ⟨_, rfl⟩
+
+/-- past the kind, scalar and union tests: Node agreement, then the root or the custom merge -/
+theorem mergeDef_err_of {as bs : Schema} {va vb : TypeDef} (hn : va.name = vb.name) (hN : vb.name ≠ nodeInterfaceName)
+    (hk : vb.kind = va.kind) (hs : vb.kind ≠ .scalar) (hu : vb.kind ≠ .union)
+    (hroot : isRootName vb.name = true → implementsNode vb = implementsNode va → ∃ e, mergeRootObjects E vb va = .error e)
+    (hcust : isRootName vb.name = false → implementsNode vb = implementsNode va → ∃ e, mergeCustomObjects E vb va = .error e) :
+    ∃ e, mergeDef E as bs va vb = .error e := by
+  unfold mergeDef
+  have h1 : (vb.name == nodeInterfaceName) = false := by simpa using hN
+  have h2 : (vb.kind != va.kind) = false := by simpa using hk
+  have h3 : (vb.kind == Kind.scalar) = false := by simpa using hs
+  have h4 : (vb.kind == Kind.union) = false := by simpa using hu
+  have hself : sameMembers (possibleNames as va.name) (possibleNames (if E.ifaceSelfCompare = true then as else bs) vb.name) = true := by
+    simp only [show E.ifaceSelfCompare = true from rfl, ↓reduceIte, hn]
+    exact sameMembers_self _
+  simp only [h1, h2, h3, h4, Bool.false_eq_true, ↓reduceIte, hself, Bool.not_true, Bool.and_false,
+    show E.newSideFirst = true from rfl]
+  by_cases h6 : (implementsNode vb != implementsNode va) = true
+  · rw [if_pos h6]; exact ⟨_, rfl⟩
+  · rw [if_neg h6]
+    have h6' : implementsNode vb = implementsNode va := by simpa using h6
+    by_cases h7 : isRootName vb.name = true
+    · rw [if_pos h7]
+      obtain ⟨e, he⟩ := hroot h7 h6'
+      rw [he]; exact ⟨e, rfl⟩
+    · rw [if_neg h7]
+      obtain ⟨e, he⟩ := hcust (by simpa using h7) h6'
+      rw [he]; exact ⟨e, rfl⟩
+
+/-! ## when `mergeTypes` succeeds: every entry of `b` on its own (keys of `b` distinct) -/
+
+/-- the entry `vb` of `b` can be merged into the map `a` -/
+def PairOK (as bs : Schema) (a : List TypeDef) (vb : TypeDef) : Prop :=
+  isBuiltinName vb.name = false → ∀ va, lookup a vb.name = some va → ∃ od, mergeDef E as bs va vb = .ok od
+
+theorem mergeOne_ok_iff {as bs : Schema} {res : List TypeDef} {vb : TypeDef} :
+    (∃ res', mergeOne E as bs res vb = .ok res') ↔ PairOK as bs res vb := by
+  constructor
+  · rintro ⟨res', h⟩ hb va hl
+    rcases mergeOne_cases h with ⟨hbt, _⟩ | ⟨_, hl', _⟩ | ⟨_, va', hl', hcase⟩
+    · rw [hb] at hbt; cases hbt
+    · rw [hl] at hl'; cases hl'
+    · rw [hl] at hl'; cases hl'
+      rcases hcase with ⟨hm, _⟩ | ⟨d, hm, _⟩
+      · exact ⟨_, hm⟩
+      · exact ⟨_, hm⟩
+  · intro h
+    unfold mergeOne
+    cases hb : isBuiltinName vb.name with
+    | true => exact ⟨res, by simp⟩
+    | false =>
+      simp only [Bool.false_eq_true, ↓reduceIte]
+      cases hl : lookup res vb.name with
+      | none => exact ⟨_, rfl⟩
+      | some va =>
+        obtain ⟨od, hm⟩ := h hb va hl
+        simp only [hm]
+        cases od <;> exact ⟨_, rfl⟩
+
+theorem mergeOne_lookup_ne {as bs : Schema} {res res' : List TypeDef} {vb : TypeDef} {k : String}
+    (h : mergeOne E as bs res vb = .ok res') (hk : vb.name ≠ k) : lookup res' k = lookup res k := by
+  rcases mergeOne_cases h with ⟨_, rfl⟩ | ⟨_, _, rfl⟩ | ⟨_, va, hl, hcase⟩
+  · rfl
+  · exact lookup_append_ne hk
+  · rcases hcase with ⟨_, rfl⟩ | ⟨d, hm, rfl⟩
+    · rfl
+    · obtain ⟨_, hvan⟩ := lookup_some hl
+      have hdn : d.name = vb.name := by
+        rcases mergeDef_spec hm hvan with ⟨ho, _⟩ | ⟨_, _, hrest⟩
+        · cases ho
+        · rcases hrest with ⟨_, ho⟩ | ⟨_, ho, _⟩ | ⟨_, _, _, hrc⟩
+          · cases ho; rfl
+          · cases ho
+          · rcases hrc with ⟨_, d', ho, hmr⟩ | ⟨_, d', ho, hmc⟩
+            · cases ho; exact (mergeRootObjects_spec hmr).1
+            · cases ho; exact (mergeCustomObjects_spec hmc).1
+      exact lookup_setType_ne (hdn ▸ hk) (by rw [hdn, hl]; rfl)
+
+theorem mergeTypes_ok_iff {as bs : Schema} : ∀ (b a : List TypeDef), (b.map (·.name)).Nodup →
+    ((∃ r, mergeTypes E a b as bs = .ok r) ↔ ∀ vb ∈ b, PairOK as bs a vb)
+  | [], a, _ => by
+    simp only [mergeTypes, List.foldlM_nil, List.not_mem_nil, false_imp_iff, implies_true, iff_true]
+    exact ⟨a, rfl⟩
+  | v :: b, a, hn => by
+    simp only [List.map_cons, List.nodup_cons] at hn
+    have hstable : ∀ {res1}, mergeOne E as bs a v = .ok res1 → ∀ vb ∈ b, (PairOK as bs res1 vb ↔ PairOK as bs a vb) := by
+      intro res1 h1 vb hvb
+      have : v.name ≠ vb.name := fun he => hn.1 (he ▸ List.mem_map_of_mem hvb)
+      unfold PairOK
+      rw [mergeOne_lookup_ne h1 this]
+    constructor
+    · rintro ⟨r, h⟩
+      obtain ⟨res1, h1, h2⟩ := foldlM_cons_ok (f := mergeOne E as bs) h
+      have ih := (mergeTypes_ok_iff b res1 hn.2).mp ⟨r, h2⟩
+      intro vb hvb
+      rcases List.mem_cons.mp hvb with rfl | hvb
+      · exact mergeOne_ok_iff.mp ⟨res1, h1⟩
+      · exact (hstable h1 vb hvb).mp (ih vb hvb)
+    · intro h
+      obtain ⟨res1, h1⟩ := mergeOne_ok_iff.mpr (h v List.mem_cons_self)
+      obtain ⟨r, h2⟩ := (mergeTypes_ok_iff b res1 hn.2).mpr (fun vb hvb =>
+        (hstable h1 vb hvb).mpr (h vb (List.mem_cons_of_mem _ hvb)))
+      refine ⟨r, ?_⟩
+      unfold mergeTypes at h2 ⊢
+      rw [List.foldlM_cons, h1]
+      exact h2
+
+/-- two services -/
+theorem mergeSchema_two_ok_iff (A B : MergeInput) :
+    (∃ R, mergeSchema E [A, B] = .ok R) ↔ ∃ r, mergeTypes E A.schema.types B.schema.types A.schema B.schema = .ok r := by
+  simp only [mergeSchema, foldInputs, show E.asIsPrevInput = true from rfl, ↓reduceIte, bind, Except.bind, pure, Except.pure]
+  cases mergeTypes E A.schema.types B.schema.types A.schema B.schema with
+  | error e => simp
+  | ok r => simp
+
+theorem rejected_iff {ins : List MergeInput} : (∃ e, mergeSchema E ins = .error e) ↔ ¬ ∃ R, mergeSchema E ins = .ok R := by
+  cases mergeSchema E ins with
+  | error e => simp
+  | ok R => simp
+
+/-- two services that share a type name on which `mergeDef` fails are rejected -/
+theorem reject_pair {A B : MergeInput} (hA : TypesNodup A.schema) (hB : TypesNodup B.schema) {a b : TypeDef}
+    (ha : a ∈ A.schema.types) (hb : b ∈ B.schema.types) (hn : a.name = b.name) (hbn : isBuiltinName b.name = false)
+    (herr : ∃ e, mergeDef E A.schema B.schema a b = .error e) : ∃ e, mergeSchema E [A, B] = .error e := by
+  rw [rejected_iff, mergeSchema_two_ok_iff, mergeTypes_ok_iff _ _ hB]
+  intro h
+  obtain ⟨od, hod⟩ := h b hb hbn a (hn ▸ lookup_of_nodup hA ha)
+  obtain ⟨e, he⟩ := herr
+  rw [he] at hod; cases hod
+
 end PebblesVerif.Merge
